@@ -129,7 +129,7 @@ func runC05(c *ev.Ctx) {
 // (1) random sequences, then disconnect with fids still bound.
 func c05Sequences(c *ev.Ctx) {
 	r := c.Rand("c05seq")
-	n := c.Sz(1500, 20000)
+	n := c.Sz(1500, 80000)
 	for si := 0; si < n; si++ {
 		if !c.Mine(si) {
 			continue
